@@ -18,8 +18,8 @@ PROP = {
 }
 
 MANIFEST = {
-    "text": "Coq theorems (kernel-checked on every run) over a hand model of checker.Check (type, re-annotated tree incl. setTypeForIntegers and node.Fast, first error with location; all node kinds, builtins with the collections stack, operator overloads, expect, strict / AllowUndefinedVariables / DefaultType) instantiated with typeWeight/combined REGENERATED from checker/types.go: C03_rejects (a violation of a documented typing rule at ANY node, or of the result directive, makes check report an error; induction over the position of the fault, the first recorded error survives every enclosing node), C03_first_error_location, C03_cast (AsInt64/AsFloat64/AsBool result kinds via run_ref), C03_sound_partial (accepted, fully static programs in scope never fail for a type reason in the reference semantics and return a value of the reported type; induction over the expression with one lemma per node kind), with the recorded defects carved out by decidable predicates and refuted by vm_compute witnesses. Tie: the model is executed on the configurations and freshly parsed trees on which the real checker.Check ran (verdict, reported reflect.Type, error location and message family, Kind annotation of every node, Fast flag; also the second check expr.Compile performs), 8 configurations. Oracle in Go: a reference typer written from the documented rules judges every generated expression and ALL its single-fault token-level mutants under {none, AsBool, AsInt64, AsFloat64} (must be rejected by expr.Compile), every accepted program with statically typed operands is run on base/zero/boundary/random environments (type-class failure = violation unless it disappears with nil pointers populated; dynamic type = reported type; exactly bool/int64/float64 under the directive).",
+    "text": "Coq theorems (kernel-checked on every run) over a hand model of checker.Check (type, re-annotated tree incl. setTypeForIntegers and node.Fast, first error with location; all node kinds, builtins with the collections stack, operator overloads, expect, strict / AllowUndefinedVariables / DefaultType) instantiated with typeWeight/combined REGENERATED from checker/types.go: C03_rejects (a violation of a documented typing rule at ANY node, or of the result directive, makes check report an error; induction over the position of the fault, the first recorded error survives every enclosing node), C03_first_error_survives (the first recorded error is the one reported, whatever is visited afterwards). The SOUNDNESS half of the property (accepted, fully static programs never fail for a type reason and return a value of the reported type; exact result kind under AsBool/AsInt64/AsFloat64) is NOT yet a Coq theorem: it is decided by the implementation-level oracle below and by the executed correspondence of the checker model. Tie: the model is executed on the configurations and freshly parsed trees on which the real checker.Check ran (verdict, reported reflect.Type, error location and message family, Kind annotation of every node, Fast flag; also the second check expr.Compile performs), 8 configurations. Oracle in Go: a reference typer written from the documented rules judges every generated expression and ALL its single-fault token-level mutants under {none, AsBool, AsInt64, AsFloat64} (must be rejected by expr.Compile), every accepted program with statically typed operands is run on base/zero/boundary/random environments (type-class failure = violation unless it disappears with nil pointers populated; dynamic type = reported type; exactly bool/int64/float64 under the directive).",
     "design_ref": "DESIGN.md §4 C03",
-    "note": "Trusted: Coq kernel + vm_compute; hand model Ty/Checker.v (validated by correspondence each run); reference semantics Sem/Sem.v (C01 ties it to the compiled code); translator reading typeWeight/combined; harness generators, serialisers and the Go reference typer. Soundness is proved for the node kinds listed in Props/C03.v under the scope predicate; the remaining kinds are covered by the Go oracle only. Twelve recorded findings (KNOWN_FINDINGS.json, property C03).",
+    "note": "Trusted: Coq kernel + vm_compute; hand model Ty/Checker.v (validated by correspondence each run); reference semantics Sem/Sem.v (C01 ties it to the compiled code); translator reading typeWeight/combined; harness generators, serialisers and the Go reference typer. PARTIAL: only the rejection half is proved in Coq; soundness is covered by the Go oracle (runs of every accepted program on environment values) only. Twelve recorded findings (KNOWN_FINDINGS.json, property C03).",
     "technique": "Coq proof by induction over the expression / over the position of the fault on a hand model + executed model/implementation correspondence + implementation-level oracle (reference typer, mutation of well-typed programs, runs on environment values)",
 }
